@@ -11,11 +11,11 @@
 import TemporalModel.Model.Zone
 namespace TemporalModel
 
-/-- The instant of a wall-clock reading: read as UTC without a zone (`as_nanoseconds`), resolved with
+/-- The instant of a wall-clock reading: read as UTC without a zone (`utc_epoch_nanoseconds`), resolved with
     `GetEpochNanosecondsFor(compatible)` with one. -/
 def toNsIn (tz : Option TZ) (dt : IsoDateTime) : Out Int :=
   match tz with
-  | none => dt.asNanoseconds
+  | none => dt.utcEpochNs
   | some z => z.epochNsFor dt .compatible
 
 /-- `NudgeToCalendarUnit` with an optional time zone. -/
